@@ -3,6 +3,11 @@ import json, os
 V = os.path.dirname(os.path.dirname(os.path.abspath(__file__)))
 
 CHECKS = {
+ "C01": dict(
+   technique="TLA+ spec of Q[t]/(t^D) (composition by defining identity); TLC proves the ring/ODE/Horner/truncation theorems and enumerates all coefficient patterns with their integer C-matrix; replay into algopy with mpmath Taylor coefficients as the only transcendental input",
+   text="For every function, entry point, base point from a grid, P, shape and EVERY coefficient pattern over {-2..2}^(D-1) (plus sparse patterns to D=6/10 and complex data), each output coefficient of algopy equals sum_k C[d][k] F_k where C is computed by the TLA+ spec (exact integers) and F_k = f^(k)(x0)/k! comes from mpmath at 40 digits; the spec's algebra itself is model-checked (ODE theorem y' = f'(x) x', Horner, ring laws, truncation).",
+   note="base points sampled from finite per-function grids; mpmath is trusted for f^(k)(x0); tolerance 1e-9 relative to sum|C F|; x**y (both polynomials) only at x0=1 where it is rational",
+   design="4 (C01)"),
  "C15": dict(
    technique="TLA+ spec of the interpolation identity (exact rationals), TLC exhaustive over (N,d); spec-generated Gamma rows replayed against exact_interpolation",
    text="TLC proves, in exact rational arithmetic, sum_j Gamma(i,j) ray_j^alpha = [i=alpha] for every (N,d) and every pair of multi-indices within the bounds, with the multi-index set defined as a set (not by the recursive generator); every Gamma entry, the index list and the rays of the implementation are compared with the spec's values.",
